@@ -23,7 +23,7 @@ CHECKS = {
             "Trusted: R2 rule selection, vf/ref/diff.py, the two signed-text readers. Vendor-specific diff logics out of scope (aruba excluded).", "4/C03"),
     "C04": ("round-trip law monitor on the real formatters (no reference model): exhaustive small tree shapes + random trees, per vendor, with vendor-significant row classes",
             "For all 14 registered vendors, trees of the vendor's well-formed domain are rendered with join, parsed back with parse_to_tree and the vendor's split, compared as ordered "
-            "trees, re-rendered and compared as text. Exhaustive over all ordered tree shapes with <=4/5 nodes x 3 row forms, then random trees to depth 5.",
+            "trees, re-rendered and compared as text. Exhaustive over all ordered tree shapes with <=4/5 nodes x 3 row forms, then random trees to depth 5; one more process holds all vendors at once: kept formatter objects serve flat and nested texts in turn, and one text is read by several vendors one after another.",
             "Pure law; domain restrictions (delimiters, comment markers, block-end keywords dropped on purpose) are listed in the evidence rule. One known finding (Cisco address-family).", "4/C04"),
     "C05": ("reference-model monitor (independent offside parser) over exhaustive small scope + random texts",
             "Every text in an exhaustively enumerated small scope (all indentation vectors up to 6/7 lines over columns 0..6, "
@@ -66,11 +66,11 @@ CHECKS = {
             "(shipped rulebooks) and neither diff entries nor leaf commands may concern a line that is a pure default on both sides; the same law is observed through "
             "_old_new_per_device(add_implicit=True), including an empty device text.",
             "Trusted: R1 regex-level reference; rule texts taken from annet.implicit._implicit_tree as data.", "4/C17"),
-    "C18": ("invariant monitors on hardware/vendor/rulebook resolution over the whole device database (exhaustive), registration-order permutation, fresh-process differential",
+    "C18": ("invariant monitors on hardware/vendor/rulebook resolution over the whole device database (exhaustive), registration-order permutation, fresh-process differential, fault injection at the provider's reads",
             "For every one of the 168 device-database entries (model strings synthesised from the regex chain) and every vendor's canonical hardware, "
             "the run observes the hardware attribute hierarchy, the vendor chosen by fresh Registry objects under every rotation and the reversal of the "
             "registration order, the loading of the patching/ordering/deploy rulebooks, and structural equality of rulebooks from fresh providers and a "
-            "fresh process with another hash seed. Exhaustive over the finite database; held = all observations consistent.",
+            "fresh process with another hash seed (also as the first rulebook a fresh interpreter loads); a read or rendering of one of the three texts is made to fail once and the next load on the same provider is compared with a fresh provider's. Exhaustive over the finite database; held = all observations consistent.",
             "Trusted: sre_parse-based model synthesiser (each synthesised string is re-checked against the regex chain); the expected vendor is derived from the vendors' own match() expressions.", "4/C18"),
     "C08": ("invariant hook on PatchTree.sort (permutation), rank oracle R6 on sibling commands of real patches and ordered configs, metamorphic relation on the shipped ordering rulebooks",
             "Every PatchTree.sort call is observed through a hook asserting a pure permutation (children stay with their parent); for generated ordering rulebooks with disjoint "
@@ -108,7 +108,7 @@ CHECKS = {
             "path must come from the highest priority; the deploy job is parsed for entire_reload yes/no/force and its upload set, uploaded bytes, reload attachments and the shown "
             "file diff are compared with the decision table of the statement.",
             "UnifiedFileDiffer set as the device file differ; PC hardware. Two known findings (splitlines-based decision).", "4/C19"),
-    "C20": ("fresh-process differential monitor + deep snapshot invariants (inputs, compiled rulebook signature) around every call in job sequences",
+    "C20": ("fresh-process differential monitor + deep snapshot invariants (inputs, compiled rulebook: structural signature and an image of every key and value) around every call in job sequences",
             "Jobs from the fixture corpus (with the hardware families of the same vendor), hand-written pairs for the rule-mutating logics and ACL variants are executed inside "
             "random sequences in one process (as a pool worker does) and, each, alone in a fresh interpreter; canonical results (diff, command paths, ordered config) must be "
             "equal, old/new trees and the structural signature of the cached compiled rulebook must be identical before and after every call, and a repeated call must agree.",
